@@ -68,9 +68,39 @@ def vars_specs() -> list[Spec]:
         Spec("gen_perm_decode", m, "PermutationVariable", "decode",
              [("value", "value", LIST(X)), ("pi!", "pi", LIST(NAT))], LIST("L"),
              attrs={"argsort_of": ("value", "pi"),
-                    "calls": {"self._label_encoder.inverse_transform": lambda a: (f"(inverse_transform {a[0][0]})", LIST("L"))}}),
+                    "calls": {"self._label_encoder.inverse_transform": lambda arg: (f"(inverse_transform {arg(0)[0]})", LIST("L"))}}),
         Spec("gen_binary_validate", m, "BinaryVariable", "validate_n_vars", [("v", "v", ZT)], ZT, fallible=True,
              attrs={"len_as_Z": True}, skip_params=("self", "cls")),
+    ]
+
+
+FLOATS = {"sub": "fsub", "abs": "fabs", "ltb": "fltb", "leb": "fleb", "zero": "fzero", "one": "fone", "opp": "fopp", "add": "fadd", "div": "fdiv"}
+
+
+def stop_specs() -> list[Spec]:
+    a = "abstract.py"
+    CFG, ES = "(cfg F)", "(es F)"
+    cfg_attrs = {(CFG, "fitness_error"): ("fitness_error", OPT(F)), (CFG, "max_cycles"): ("max_cycles", NAT),
+                 (CFG, "early_stopping"): ("early", OPT(ES)), (ES, "min_delta"): ("min_delta", F), (ES, "patience"): ("patience", NAT)}
+    return [
+        Spec("gen_should_stop", a, "OptimizationAbstract", "__should_stop__",
+             [("self._config", "c", CFG), ("self._current_cycle", "cycle", NAT), ("self._error_diffs", "diffs", LIST(F)),
+              ("current_error", "current_error", F)], BOOL, attrs=cfg_attrs, floats=FLOATS),
+        Spec("gen_error_check", a, "OptimizationAbstract", "__error_check__",
+             [("self._config", "c", CFG), ("self._current_cycle", "cycle", NAT), ("self._errors", "errors", LIST(F)),
+              ("self._error_diffs", "diffs", LIST(F)), ("avg!", "avg_fit", F)], TUP(F, F, BOOL, LIST(F), LIST(F)),
+             attrs={**cfg_attrs, "mutable": ("self._errors", "self._error_diffs"),
+                    "return_states": ["self._errors", "self._error_diffs"],
+                    "calls": {"average_fitness": lambda arg: ("avg_fit", F)}}, floats=FLOATS),
+    ]
+
+
+def report_specs() -> list[Spec]:
+    m = "models.py"
+    cost_attr = {(AGENT, "cost"): ("cost", X)}
+    return [
+        Spec("gen_population_refine", m, "Population", "__init__>refine_agent", [("a", "a", AGENT), ("tt", "tt", DIR)], AGENT, attrs=cost_attr),
+        Spec("gen_result_refine", m, "OptimizationResult", "__init__>refine_best_solution", [("a", "a", AGENT), ("tt", "tt", DIR)], AGENT, attrs=cost_attr),
     ]
 
 
@@ -105,6 +135,13 @@ def regenerate(repo: Path) -> dict:
     emit_group(repo, "GenVars.v", "From Coq Require Import List ZArith Bool Arith.\nFrom PV Require Import Xnum Select PyLib Argsort.\n"
                "Import ListNotations.\n",
                "Variable C : Type.\nVariable L : Type.\nVariable inverse_transform : list nat -> list L.\n", vars_specs(), status)
+    emit_group(repo, "GenStop.v", "From Coq Require Import List ZArith Bool Arith.\nFrom PV Require Import Xnum Select PyLib Loop.\n"
+               "Import ListNotations.\n",
+               "Variable F : Type.\nVariables (fsub : F -> F -> F) (fabs : F -> F) (fltb fleb : F -> F -> bool) (fzero fone : F).\n"
+               "Variable A : Type.\nVariable cost : A -> xnum.\nVariable with_cost : A -> xnum -> A.\n",
+               stop_specs() + report_specs(), status)
+    from . import tschema
+    tschema.emit(repo, status)
     from . import regen_more
     regen_more.regenerate(repo, status)
     coq.write_if_changed(GEN / "status.json", json.dumps(status, indent=1, sort_keys=True))
